@@ -216,6 +216,10 @@ def field_ct_drivers(f):
       ds.append((Driver("drv_ct_%s_sqrt" % f.tag, [("a", "in", 8, n), ("out", "out", 8, n), ("st", "out", 4, 1)],
                       "        let x: %s = %s;\n        let (r, c) = x.sqrt();\n        *out = %s; st[0] = c;"
                       % (ty, tm(ty, n, "a"), back(ty, n, "r"))), "%s::sqrt" % ty))
+    ds.append((Driver("drv_ct_%s_batchinv" % f.tag, [("a", "in", 8, n), ("b", "in", 8, n), ("c", "in", 8, n), ("out", "out", 8, n)],
+                      "        let mut xs: [%s; 3] = [%s, %s, %s];\n        <%s>::batch_invert(&mut xs[..]);\n        *out = %s;"
+                      % (ty, tm(ty, n, "a"), tm(ty, n, "b"), tm(ty, n, "c"), ty, back(ty, n, "xs[0] + xs[1] + xs[2]"))),
+               "%s::batch_invert (3 secret elements)" % ty))
     ds.append((Driver("drv_ct_%s_legendre" % f.tag, [("a", "in", 8, n), ("st", "out", 4, 1)],
                       "        let x: %s = %s;\n        st[0] = x.legendre() as u32;" % (ty, tm(ty, n, "a"))),
                "%s::legendre" % ty))
@@ -263,6 +267,9 @@ def curve_ct_drivers(tag, mod, sb, pw):
     ds.append((Driver("drv_ct_%s_double" % tag, [("p", "in", 8, pw), ("out", "out", 8, pw)],
                       "        let x: %s = %s;\n        *out = %s;" % (P, tm(P, pw, "p"), back(P, pw, "x.double()"))),
                "%s::double" % P))
+    ds.append((Driver("drv_ct_%s_setdecode" % tag, [("buf", "in", 1, sb + (1 if tag in ("ed448", "p256", "secp256k1") else 0)), ("out", "out", 8, pw), ("st", "out", 4, 1)],
+                      "        let mut x = <%s>::NEUTRAL;\n        let r = x.set_decode(&buf[..]);\n        *out = %s; st[0] = r;"
+                      % (P, back(P, pw, "x"))), "%s::set_decode (constant-time decoding of secret bytes)" % P))
     ds.append((Driver("drv_ct_%s_encode" % tag, [("p", "in", 8, pw), ("out", "out", 1, 1)],
                       "        let x: %s = %s;\n        let e = x.%s();\n        out[0] = e[0];" % (P, tm(P, pw, "p"), "encode_compressed" if tag in ("p256", "secp256k1") else "encode")),
                "%s::encode (secret point; includes a field inversion)" % P))
